@@ -508,6 +508,18 @@ def check_pure(ctx, case):
                 if np.max(np.abs(rebuilt - psi)) > 1e-9:
                     t.fail(f"is_product({form}, dim={dform}): the returned factors do not rebuild the vector (residual {np.max(np.abs(rebuilt - psi)):.2e})",
                            function="is_product", input=form, dim_form=dform, impl="decomposition residual")
+    # ---- product test on rescaled vectors: c * psi is a product vector exactly when psi is (unnormalised inputs; cut-offs must be relative)
+    for sc in (512.0, 1.0 / 512):
+        for dform, dim in dim_forms(dA, dB)[:1]:
+            reg("is_product", "vec1d-scaled", dform)
+            res = with_dim(is_product, inputs["vec1d"] * sc, dim=dim)
+            try:
+                verdict = bool(np.asarray(res[1][0]).reshape(-1)[0]) if res[0] == "ok" else None
+            except Exception:  # noqa: BLE001
+                verdict = None
+            if verdict is None or verdict != (r == 1):
+                t.fail(f"is_product({sc} * psi, dim={dform}) -> {res[1] if res[0] != 'ok' else verdict!r}, the state has Schmidt rank {r} on {dA}x{dB}",
+                       function="is_product", input="vec1d-scaled", dim_form=dform, impl=(res[1] if res[0] != "ok" else repr(verdict)), expected=(r == 1), scale=sc)
     # ---- l1 norm of coherence
     want = float(np.sum(np.abs(psi))) ** 2 - float(np.sum(np.abs(psi) ** 2))
     if psi_x is not None:
